@@ -80,7 +80,8 @@ def dec(rng, lo, hi, exact, suf='', plus=False):
     if plus and not txt.startswith('-') and rng.random() < 0.1:
         txt = '+' + txt
     ex = Fraction(txt) == Fraction(float(txt)) and Fraction(txt).denominator <= 1024
-    return {'k': 'dec', 'txt': txt, 'suf': suf, 'ex': bool(ex)}
+    # the suffix LETTER is case-insensitive in DS9: written in either case, per occurrence
+    return {'k': 'dec', 'txt': txt, 'suf': suf, 'sufw': suf.upper() if rng.random() < 0.3 else suf, 'ex': bool(ex)}
 
 
 def sexa(rng, kind, amax, signed):
@@ -95,18 +96,19 @@ def sexa(rng, kind, amax, signed):
         sg = rng.choice(['+', '-', '', '-'])
     elif rng.random() < 0.15:
         sg = '+'
+    # the letters h d m s are case-insensitive: each one in either case
+    letters = ''.join(x.upper() if rng.random() < 0.3 else x for x in {'hms': 'hms', 'dms': 'dms'}.get(kind, ''))
     return {'k': kind, 'sgn': sg, 'a': ('%02d' % a) if pad else str(a), 'b': ('%02d' % b) if pad else str(b),
-            'c': c, 'ex': False}
+            'c': c, 'L': letters, 'ex': False}
 
 
 def num_text(n):
     if n['k'] == 'dec':
-        return n['txt'] + n['suf']
+        return n['txt'] + n.get('sufw', n['suf'])
     if n['k'] == 'colon':
         return f"{n['sgn']}{n['a']}:{n['b']}:{n['c']}"
-    if n['k'] == 'hms':
-        return f"{n['sgn']}{n['a']}h{n['b']}m{n['c']}s"
-    return f"{n['sgn']}{n['a']}d{n['b']}m{n['c']}s"
+    L = n.get('L') or n['k']
+    return f"{n['sgn']}{n['a']}{L[0]}{n['b']}{L[1]}{n['c']}{L[2]}"
 
 
 def num_tok(n):
@@ -869,7 +871,8 @@ class Check(PropertyCheck):
             'end in `||`, members with own properties / signs / unsupported shapes, include=0 in the header, two composites in a row, a plain '
             'region after the composite), unsupported shapes (vector ruler compass projection panda epanda bpanda) and region lines whose '
             'numbers are not representable in the frame (arcsec in image, 10i in fk5, physical p), in any order; '
-            'x notation (bare, " \' d r i, a:b:c, ahbmcs, adbmcs, signs, padding) x separators (newline / ; , optional parentheses, '
+            'x notation (bare, " \' d r i p, a:b:c, ahbmcs, adbmcs, signs, padding; every suffix / sexagesimal LETTER in either case '
+            'per occurrence: 10D, 1.2R, 10I, 1H20m30S) x separators (newline / ; , optional parentheses, '
             'commas or blanks) x keyword and key case x include sign x property lists (color width fill dash dashlist font point '
             'textangle include flags text tag with {} "" \'\' delimiters and verbatim content incl. ; # = other delimiters, numeric-looking '
             'and blank-padded text; ";" inside text under any key spelling, and in 30% of the files inside tag values). '
